@@ -1,6 +1,7 @@
 import MtblModel.Block
 import MtblModel.Meta
 import MtblModel.Crc
+import MtblModel.Spec
 /-
   mtbl/reader.c : open (on arbitrary bytes, every load bounds-checked by the model), get_block,
   the four iterator kinds, reader_iter_next, reader_iter_seek.
@@ -86,9 +87,6 @@ def getBlock (r : Rd) (off : Nat) : Option Blk :=
     | none => none
     | some c => blockInit r.thr c
 
-inductive Kind | iter | get (k : Bytes) | pfx (k : Bytes) | range (k1 : Bytes)
-deriving Repr, Inhabited, DecidableEq
-
 structure RIter where
   r : Rd
   blockOffset : Nat := 0
@@ -151,13 +149,6 @@ def rSeek (it : RIter) (k : Bytes) : Option RIter :=
         | none => none
         | some bi => some { it with blockOffset := off, b := some b, bi := biSeek bi k, first := true, valid := true }
     else some { it with bi := biSeek it.bi k, first := true, valid := true }
-
-def inBound (kind : Kind) (key : Bytes) : Bool :=
-  match kind with
-  | .iter => true
-  | .get k => bcmp key k == .eq
-  | .pfx p => isPrefix p key
-  | .range k1 => bcmp key k1 != .gt
 
 /-- the `switch (it->it_type)` at the end of reader_iter_next -/
 def rFinish (it : RIter) : Option Entry × RIter :=
